@@ -795,7 +795,7 @@ def tr2angvec(T, unit='rad', check=False):
 
     v = base.vex(trlog(R))
 
-    if base.iszerovec(v):
+    if base.iszerovec(v, tol=100):
         theta = 0
         v = np.r_[0, 0, 0]
     else:
